@@ -183,6 +183,8 @@ pub fn c07(ctx: &mut Ctx, tier: &str, r: &mut Rng, js: &[Value], reqs: &[String]
     let local = handle.join().unwrap();
     ctx.evals += local.evals;
     ctx.fails += local.fails;
+    ctx.fail_lines.extend(local.fail_lines);
+    ctx.shrinker = Some(c07_one);
     ctx.nontrivial.extend(local.nontrivial);
     for (k, v) in local.branches {
         *ctx.branches.entry(k).or_insert(0) += v;
